@@ -34,6 +34,12 @@ def mkwt(patch):
         if r.returncode:
             rmwt(d)
             raise SystemExit("patch does not apply: " + r.stderr)
+        b = os.path.join(os.path.dirname(os.path.abspath(patch)), "build.sh")
+        if os.path.exists(b):      # seeds that rebuild a compiled extension from (patched) generated C
+            r = sh(["sh", b, d])
+            if r.returncode:
+                rmwt(d)
+                raise SystemExit("build.sh failed: " + r.stdout + r.stderr)
     return d
 
 
